@@ -4,13 +4,14 @@ import Slock.Model.Aof
 
 * `aofload <cfgBuf> <now> <rechex>:<dathex|x> …` → `<hex64>/<blobhex|n>,… ;ok|err` (records handed to the engine by `LoadAofFiles`)
 * `aofappend <cfgBuf> <rechex>:<dathex|x> <hex64>/<blobhex|n>,…` → `<rechex>:<dathex>` (reopen in append mode, write, close)
+* `aofflusherr <cfgBuf> <recsA> <recsB>` → `<rechex>:<dathex>`: recsA written, the flush fails at the record write, recsB written + flushed
 * `aofwrites <cfgBuf> <hex64>/<blobhex|n>,…` → `rec:dat,…` sizes after each writer call
 * `aofdl <eflag> <E> <grant> <journal> <reload>` → `commandTime age stored skipped restoredExpried`
 * `aofreload <nowRel> <journal>` → `reload` of the journal at second nowRel (what a restart does): `<holds>|<values>#<db>.<key>:<class>,…`
   (`~` = value not predicted: a millisecond hold of the key ended during the reload); the classes name the first record per key
   that the restart treats differently from what the journal means
 * `aofjournal <L|U>.<db>.<key>.<id>.<flag>.<aofFlag>.<eflag>.<stored>.<ctRel>.<count>.<rcount>.<valuehex|n>,…` → `recover` of the
-  journal: `<db>.<key>.<id>.<depth>.<count>.<rcount>.<eflag>.<deadline|inf>;…|<db>.<key>=<valuehex>;…`
+  journal: `<db>.<key>.<id>.<depth>.<count>.<rcount>.<eflag>.<tflag>.<deadline|inf>;…|<db>.<key>=<valuehex>;…`
 * `aofkeep <now> <view> <hex64>/<blob|n>` → 1|0: the compaction keeps the record (`keepRule`, after the expired-record filter)
 * `aofcompact <cfgBuf> <cur> <now> <view> <name>=<hex> …` → directory after the tmp file is written and after each later
   file-system mutation of a compaction with `keep = keepRule now view`; `<view>` = `;`-separated keys
@@ -119,7 +120,7 @@ def showJState (st : JState) : String :=
   let hs := (st.holds.toArray.qsort (fun a b => a.db < b.db || (a.db == b.db && (a.key < b.key || (a.key == b.key && a.id < b.id))))).toList
   let vs := (st.values.toArray.qsort (fun a b => a.1.1 < b.1.1 || (a.1.1 == b.1.1 && a.1.2 < b.1.2))).toList
   let h := if hs.isEmpty then "-" else ";".intercalate (hs.map (fun h =>
-    s!"{h.db}.{h.key}.{h.id}.{h.depth}.{h.count}.{h.rcount}.{showHexNat h.eflag}." ++ (match h.deadline with | none => "inf" | some d => toString d)))
+    s!"{h.db}.{h.key}.{h.id}.{h.depth}.{h.count}.{h.rcount}.{showHexNat h.eflag}.{showHexNat h.tflag}." ++ (match h.deadline with | none => "inf" | some d => toString d)))
   let v := if vs.isEmpty then "-" else ";".intercalate (vs.map (fun p => s!"{p.1.1}.{p.1.2}=" ++ showHex p.2))
   h ++ "|" ++ v
 
@@ -137,6 +138,12 @@ def handleAof : List String → Option String
     let img ← parseImg img
     let more ← parseRecs more
     let (r, d) := appendAfterRestart cfg img.log img.dat more
+    pure (showImg r d)
+  | ["aofflusherr", cfg, a, b] => do
+    let cfg ← cfg.toNat?
+    let a ← parseRecs a
+    let b ← parseRecs b
+    let (r, d) := failedFlushThenWrite cfg a b
     pure (showImg r d)
   | ["aofwrites", cfg, recs] => do
     let cfg ← cfg.toNat?
@@ -158,7 +165,7 @@ def handleAof : List String → Option String
     let hs := (holds.toArray.qsort (fun a b => a.1 < b.1 || (a.1 == b.1 && (a.2.1 < b.2.1 || (a.2.1 == b.2.1 && a.2.2.id < b.2.2.id))))).toList
     let ks := ((st.filter (fun k => !k.holds.isEmpty || k.value.isSome || k.unsure)).toArray.qsort (fun a b => a.db < b.db || (a.db == b.db && a.key < b.key))).toList
     let h := if hs.isEmpty then "-" else ";".intercalate (hs.map (fun x =>
-      s!"{x.1}.{x.2.1}.{x.2.2.id}.{x.2.2.depth}.{x.2.2.count}.{x.2.2.rcount}.{showHexNat (x.2.2.eflag &&& 0x4440)}." ++
+      s!"{x.1}.{x.2.1}.{x.2.2.id}.{x.2.2.depth}.{x.2.2.count}.{x.2.2.rcount}.{showHexNat (x.2.2.eflag &&& 0x4440)}.{showHexNat (x.2.2.tflag &&& 0x1010)}." ++
         (match x.2.2.deadline with | none => "inf" | some d => toString d)))
     let v := if ks.isEmpty then "-" else ";".intercalate (ks.map (fun k => s!"{k.db}.{k.key}=" ++
       (if k.unsure then "~" else match k.value with | none => "n" | some b => showHex b)))
